@@ -416,8 +416,10 @@ def r141_writers(ctx, repo):
            key=f"{CORE}::RTDCBase.__init__::sole source of format")
     # network classes never derive "hdf5"
 
+    fmt_full = ast.parse(expand_locals(init, fmt_expr), mode="eval").body
+
     def derived(name):
-        return fold(fmt_expr, {"self.__class__.__name__": name},
+        return fold(fmt_full, {"self.__class__.__name__": name},
                     "format derivation")
     if derived("RTDC_HDF5") != "hdf5":
         raise AnalysisError("format derivation no longer maps RTDC_HDF5 to "
@@ -1568,27 +1570,39 @@ def r144(ctx, repo):
            "a handler re-raises: an unreachable basin makes the feature "
            "access fail instead of falling through to the next source",
            node=rer[0] if rer else tries[0], label="no re-raise")
-    # result variable
+    # what the function can return: None, or what a basin delivered (inside
+    # the try block) – directly or through a result variable
     rets = [n for n in walk(f) if isinstance(n, ast.Return)]
-    if not rets or not all(isinstance(r.value, ast.Name) for r in rets):
+    results = []          # (expression, node)
+    for r in rets:
+        if isinstance(r.value, ast.Name):
+            asg = [n for n in walk(f) if isinstance(n, ast.Assign)
+                   and any(is_name(t, r.value.id) for t in n.targets)]
+            if not asg:
+                raise AnalysisError("_get_basin_feature_data: result "
+                                    f"`{r.value.id}` never assigned")
+            results += [(n.value, n) for n in asg]
+        else:
+            results.append((r.value, r))
+    if not rets:
         raise AnalysisError("_get_basin_feature_data: return idiom lost")
-    rv = {r.value.id for r in rets}
-    if len(rv) != 1:
-        raise AnalysisError("_get_basin_feature_data: several result names")
-    rv = list(rv)[0]
-    asg = [n for n in walk(f) if isinstance(n, ast.Assign)
-           and any(is_name(t, rv) for t in n.targets)]
-    init_none = [n for n in asg if isinstance(n.value, ast.Constant)
-                 and n.value.value is None and n in f.body]
-    others = [n for n in asg if n not in init_none]
-    ok = bool(init_none) and all(
-        isinstance(n.value, ast.Call) and last_attr(n.value)
-        == "get_feature_data" and is_name(n.value.func.value, bn)
-        and id(n) in inside for n in others) and bool(others)
+
+    def is_none(e):
+        return e is None or (isinstance(e, ast.Constant)
+                             and e.value is None)
+
+    def is_delivery(e, node):
+        return isinstance(e, ast.Call) and last_attr(
+            e) == "get_feature_data" and is_name(
+            e.func.value, bn) and id(node) in inside
+    others = [(e, n) for e, n in results if not is_none(e)]
+    ok = bool(others) and all(is_delivery(e, n) for e, n in others)
     ctx.ob("R14.4", ok,
            "the result is None unless a basin delivered the feature" if ok
            else "the result can be something else than None or the data "
-           "delivered by a basin", node=(others or asg or [f])[0],
+           "delivered by a basin (inside the try block)",
+           node=([n for e, n in others if not is_delivery(e, n)]
+                 or [n for _, n in results] or [f])[0],
            label="result None or basin data")
     # only features the basin lists are requested
     guarded = True
@@ -2152,6 +2166,27 @@ def _twin_match_function(src):
 
 
 
+def _twin_direct_return(src):
+    """result accumulator + break replaced by a direct return in the try"""
+    for old, rep in (
+            ("        data = None\n        if self.basins:\n",
+             "        if self.basins:\n"),
+            ("                        data = bn.get_feature_data(feat)\n"
+             "                        # The data are available, we may abort "
+             "the search.\n"
+             "                        break\n",
+             "                        return bn.get_feature_data(feat)\n"),
+            ("                                  f\"{traceback.format_exc()}\")\n"
+             "                    pass\n"
+             "        return data\n",
+             "                                  f\"{traceback.format_exc()}\")\n"
+             "        return None\n")):
+        if src.count(old) != 1:
+            return src
+        src = src.replace(old, rep)
+    return src
+
+
 def _twin_forward_constant(src):
     """forwarding list as module constant, early raise"""
     a = src.index("    def __getattr__(self, item):\n        if item in [\n"
@@ -2206,6 +2241,13 @@ TWINS = [
       "        self._ds.ignore_basins(seen_basin_keys)\n"
       "        return self._ds\n")),
     ("ignore keys collected by a loop and extend()", CORE, _twin_key_loop),
+    ("format derived through locals", CORE,
+     ('        self.format = self.__class__.__name__.split("_")[-1].lower()\n',
+      '        class_name = self.__class__.__name__\n'
+      '        format_suffix = class_name.split("_")[-1]\n'
+      '        self.format = format_suffix.lower()\n')),
+    ("basin data returned directly from the loop", CORE,
+     _twin_direct_return),
     ("definitions returned through a local", H5BASE,
      ("        return self.basin_get_dicts_from_h5file(self.h5file)\n",
       "        definitions = self.basin_get_dicts_from_h5file(self.h5file)\n"
